@@ -54,6 +54,7 @@ type RunLine struct {
 	Tape         []uint32          `json:"tape,omitempty"`
 	Log          []string          `json:"eventlog,omitempty"`
 	Sample       []string          `json:"sample,omitempty"`
+	Race         bool              `json:"race,omitempty"`
 }
 
 // Job is one unit of work read from DST_JOBS (one JSON object per line).
@@ -105,6 +106,7 @@ func TestWorker(t *testing.T) {
 			}
 		}
 	}()
+	installRaceOracle()
 	mk := sim.Scenarios[prop]
 	if mk == nil {
 		fmt.Fprintf(out, "{\"fatal\":\"unknown property %s\"}\n", prop)
@@ -177,7 +179,7 @@ func TestWorker(t *testing.T) {
 		w := res.World
 		l := RunLine{Run: j.Run, Job: j.ID, Steps: res.Steps, Incs: res.Incs, Sim: res.SimSeconds, LogHash: res.LogHash,
 			StateHash: w.AbstractState(), Writes: w.CountWrites(), Hooks: len(w.Hooks), Faults: w.FaultsFired, Probes: w.Probes,
-			Cfg: w.Cfg, TapeLen: len(res.Tape), Known: w.KnownSeen, Pos: j.Pos, Kind: j.Kind}
+			Cfg: w.Cfg, TapeLen: len(res.Tape), Known: w.KnownSeen, Pos: j.Pos, Kind: j.Kind, Race: raceBuild}
 		if j.Ref {
 			l.Interactions = string(w.Interactions)
 		}
